@@ -88,6 +88,8 @@ structure Heap where
   ops : List (Nat × OpRec) := []
   bufs : List (Nat × List Int) := []
   next : Nat := 0
+  /-- buffers of arrays that are natively read-only (`arr.flags.writeable = False` set by the caller) -/
+  ro : List Nat := []
   deriving Repr, Inhabited
 
 /-! ## assoc helpers -/
